@@ -99,6 +99,11 @@ impl CallSpec {
 // ---------------------------------------------------------------------------------------------
 // controllable reply stream
 
+thread_local! {
+    /// mirror of `Shared::clock` for code that cannot borrow `Shared` (the streams)
+    pub static NOW: std::cell::Cell<u64> = const { std::cell::Cell::new(0) };
+}
+
 #[derive(Debug, Default)]
 pub struct StreamSt {
     pub queue: VecDeque<(u32, Option<bool>)>,
@@ -110,6 +115,8 @@ pub struct StreamSt {
     pub waker: vnet::WakeSlot,
     /// the stream has answered `Ready(None)`
     pub finished: bool,
+    /// logical time at which the server took the stream's latest item
+    pub last_taken_tick: u64,
     /// polls made after that (the `Stream` contract leaves their outcome open: `futures::stream::unfold` panics,
     /// other streams stay pending for ever; a server must not rely on a reply stream being fused)
     pub polled_after_end: u64,
@@ -134,6 +141,7 @@ impl Stream for CtlStream {
         }
         if let Some((n, c)) = st.queue.pop_front() {
             st.taken += 1;
+            st.last_taken_tick = NOW.with(|c| c.get());
             return Poll::Ready(Some(
                 Reply::new(Some(Item { client: self.client, seq: self.seq, n })).set_continues(c),
             ));
@@ -267,6 +275,9 @@ pub struct WorldCfg {
     pub wake: bool,
     /// Record only the last quiescent point (long histories with thousands of connections).
     pub lean: bool,
+    /// Cooperative budget (0 = none): every poll of the server future may make this many transport operations; then
+    /// every transport answers `Pending` until the next poll (see `vnet::Wire::coop`).
+    pub coop: u32,
 }
 
 #[derive(Debug, Clone, PartialEq)]
@@ -325,6 +336,7 @@ impl Shared {
 
     pub fn apply(&mut self, ev: &Ev, in_handle: bool) {
         self.clock += 1;
+        NOW.with(|c| c.set(self.clock));
         self.applied.push((self.clock, ev.clone(), in_handle));
         self.apply_inner(ev);
     }
@@ -397,6 +409,7 @@ impl Service for Svc {
         {
             let mut sh = self.sh.borrow_mut();
             sh.clock += 1;
+            NOW.with(|c| c.set(sh.clock));
             let tick = sh.clock;
             let frames_written = if sh.lean { Vec::new() } else { sh.wires.iter().map(|w| w.borrow().writes.len() as u32).collect() };
             sh.log.push(LogEntry { tick, client, seq, kind, oneway: call.oneway(), more: call.more(), frames_written });
@@ -442,6 +455,8 @@ pub struct WorldOut {
     pub wakes: u64,
     /// service-side reply streams that were polled again after they had answered `Ready(None)`: (client, seq), polls
     pub polled_after_end: Vec<((u32, u32), u64)>,
+    /// per service-side stream: logical time at which its latest item was taken by the server (0 = none taken)
+    pub last_taken: BTreeMap<(u32, u32), u64>,
 }
 
 fn progress_sig(sh: &Shared) -> (usize, usize, usize, usize, u64, usize, usize) {
@@ -468,6 +483,12 @@ fn progress_sig(sh: &Shared) -> (usize, usize, usize, usize, u64, usize, usize) 
 pub fn run_world(cfg: &WorldCfg) -> WorldOut {
     let n = cfg.conns.len();
     let (listener, lref) = new_listener();
+    let budget: Option<Rc<std::cell::Cell<u32>>> = if cfg.coop > 0 { Some(Rc::new(std::cell::Cell::new(cfg.coop))) } else { None };
+    let refill = || {
+        if let Some(b) = &budget {
+            b.set(cfg.coop);
+        }
+    };
     let wires: Vec<WireRef> = (0..n)
         .map(|i| {
             let w = new_wire(i as u32);
@@ -476,6 +497,7 @@ pub fn run_world(cfg: &WorldCfg) -> WorldOut {
                 wb.fail_write_at = cfg.conns[i].fail_write_at;
                 wb.write_pending_polls = cfg.conns[i].write_pending_polls;
                 wb.err_kind = cfg.conns[i].read_err_kind;
+                wb.coop = budget.clone();
             }
             w
         })
@@ -496,6 +518,7 @@ pub fn run_world(cfg: &WorldCfg) -> WorldOut {
         lean: cfg.lean,
     }));
     let _ = vnet::trace::take();
+    NOW.with(|c| c.set(0));
     let server = Server::new(listener, Svc { sh: sh.clone(), last: String::new() });
     let mut out = WorldOut::default();
     let flag = vnet::WakeFlag::new();
@@ -506,6 +529,7 @@ pub fn run_world(cfg: &WorldCfg) -> WorldOut {
         if cfg.wake {
             // the runtime polls a freshly spawned task once
             out.total_polls += 1;
+            refill();
             if let Poll::Ready(r) = flag.poll(fut.as_mut()) {
                 out.server_exit = Some(format!("{r:?}"));
                 done = true;
@@ -534,6 +558,7 @@ pub fn run_world(cfg: &WorldCfg) -> WorldOut {
                 while flag.is_set() {
                     polls += 1;
                     out.total_polls += 1;
+                    refill();
                     if let Poll::Ready(r) = flag.poll(fut.as_mut()) {
                         out.server_exit = Some(format!("{r:?}"));
                         done = true;
@@ -549,6 +574,7 @@ pub fn run_world(cfg: &WorldCfg) -> WorldOut {
                     let before = progress_sig(&sh.borrow());
                     polls += 1;
                     out.total_polls += 1;
+                    refill();
                     match vnet::poll_once(fut.as_mut()) {
                         Poll::Ready(r) => {
                             out.server_exit = Some(format!("{r:?}"));
@@ -592,6 +618,9 @@ pub fn run_world(cfg: &WorldCfg) -> WorldOut {
             out.streams.insert(*k, (st.attached, st.dropped, st.taken, st.queue.len()));
             if st.polled_after_end > 0 {
                 out.polled_after_end.push((*k, st.polled_after_end));
+            }
+            if st.taken > 0 {
+                out.last_taken.insert(*k, st.last_taken_tick);
             }
         }
     }
@@ -833,6 +862,8 @@ pub struct Scenario {
     pub wake: bool,
     /// see `WorldCfg::lean`
     pub lean: bool,
+    /// see `WorldCfg::coop`
+    pub coop: u32,
 }
 
 pub fn hexs(b: &[u8]) -> String {
@@ -854,6 +885,7 @@ impl Scenario {
             steps: self.steps.clone(),
             wake: self.wake,
             lean: self.lean,
+            coop: self.coop,
         }
     }
 
@@ -869,6 +901,7 @@ impl Scenario {
             "steps": steps_json(&self.steps),
             "wake": self.wake,
             "lean": self.lean,
+            "coop": self.coop,
         })
     }
 
@@ -893,6 +926,7 @@ impl Scenario {
             steps: steps_from_json(&v["steps"]),
             wake: v["wake"].as_bool().unwrap_or(false),
             lean: v["lean"].as_bool().unwrap_or(false),
+            coop: v["coop"].as_u64().unwrap_or(0) as u32,
         }
     }
 
@@ -909,6 +943,9 @@ impl Scenario {
         if self.wake {
             h = vnet::fnv_mix(h, 0x77616b65);
         }
+        if self.coop > 0 {
+            h = vnet::fnv_mix(h, 0x636f6f70 + self.coop as u64);
+        }
         vnet::fnv_mix(h, vnet::fnv(format!("{:?}", self.steps).as_bytes()))
     }
 
@@ -916,6 +953,9 @@ impl Scenario {
         let mut s = String::new();
         if self.wake {
             s.push_str("[wake-driven] ");
+        }
+        if self.coop > 0 {
+            s.push_str(&format!("[cooperative budget: {} transport operations per poll] ", self.coop));
         }
         for (i, c) in self.conns.iter().enumerate() {
             s.push_str(&format!(
